@@ -123,6 +123,28 @@ Definition build (O : oracles) (how : ctor) (scheme host : text) (port : option 
   | ByBase base => do u <- m_parse O base; MOk (with_parts u user pw path q frag)
   end.
 
+(* is the host of an observed URL valid in the sense of Spec.parse_ok?  (IDNA answers from the oracle) *)
+Definition host_valid (O : oracles) (r : res url_obs) : bool :=
+  match r with
+  | Ok o =>
+    let h := uo_host o in
+    match h with
+    | [] => true
+    | _ =>
+      if (uo_family o =? 6) || memN 58 h then true
+      else match o_idna_enc O h with
+           | MOk ht =>
+             nonempty ht && legal (ok_regname false) ht &&
+             (if all_ascii ht
+              then match o_idna_dec O ht with MOk _ => true | MRaise _ => false | MOut _ => true end
+              else true)
+           | MRaise _ => false
+           | MOut _ => true
+           end
+    end
+  | Raise _ => true
+  end.
+
 Definition c06_verdict (c : c06_case) : verdict :=
   match c with
   | KQuote cp s o qf qm back =>
@@ -162,7 +184,7 @@ Definition c06_verdict (c : c06_case) : verdict :=
        agree_res text_eqb mm1 m1 && agree_res text_eqb (m_render O false (m_reparse O false mm1)) m2
      | Raise _ => true
      end,
-     parse_ok t r f1 f2 m1 m2,
+     parse_ok (host_valid O r) t r f1 f2 m1 m2,
      false)
   | KSplit t sch au path q f =>
     let '(s', a', p', q', f') := rfc_split t in
